@@ -50,6 +50,10 @@ CONSTANTS
   Interleave,      \* sender may interleave chunks of different messages
   SeqParams,       \* set of [first |-> s, wrapAfter |-> w, wrapTo |-> t]; wrapAfter = NoWrap: no wrap
   Modes,           \* security modes explored: subset of {"None", "Sign", "SignAndEncrypt"}
+  Splits,          \* how the reference sender cuts a message body into its chunks (a conforming sender may cut
+                   \* anywhere): "any" (seeded), "even", "tinyfirst" (1-2 bytes, then full chunks, short last),
+                   \* "tinylast" (full chunks, 1-2 bytes last)
+  PreInjects,      \* a frame of the adversary's own before the channel is opened ("none": nothing)
   Moves,           \* subset of {"damage", "drop", "replay", "hold"}
   Damages,         \* damage classes the adversary may apply
   Injects,         \* classes of frames of its own the adversary may insert between chunks ("inject" move)
@@ -73,7 +77,7 @@ FlagsC == [noseq |-> Dev_NoSeqCheck, dupf |-> Dev_MergeDupFilter, short |-> Dev_
 FlagsA == [noseq |-> AsIs_NoSeqCheck, dupf |-> AsIs_MergeDupFilter, short |-> AsIs_ShortChunkPanics, perreq |-> AsIs_PerRequestBound]
 
 VARIABLES
-  plan, sp, mode, sw,  \* chosen at Init
+  plan, sp, mode, sw, split, pre,  \* chosen at Init
   sentN,           \* message -> chunks handed to the wire so far
   nextSeq,         \* sender: next sequence number
   wire,            \* base stream so far (what the sender wrote), for replay
@@ -91,7 +95,7 @@ VARIABLES
   ra,              \* the as-is receiver, same inputs
   hist             \* history of inputs with both outcomes
 
-sender   == <<plan, sp, mode, sw, sentN, nextSeq, wire>>
+sender   == <<plan, sp, mode, sw, split, pre, sentN, nextSeq, wire>>
 advers   == <<held, heldAge, budget, renewed>>
 vars     == <<sender, advers, rc, ra, hist>>
 view     == <<sender, advers, rc>>
@@ -124,6 +128,8 @@ Init ==
   /\ sp \in SeqParams
   /\ mode \in Modes
   /\ sw \in Sweeps
+  /\ split \in Splits
+  /\ pre \in PreInjects      \* refused before the handshake; the receiver starts from its initial state
   /\ sentN = [m \in 1..Len(plan) |-> 0]
   /\ nextSeq = sp.first
   /\ wire = <<>>
@@ -166,6 +172,12 @@ TotalBuffered(r) == SumLen(r.partial, DOMAIN r.partial)
 \*   forge.nokeys forge.wrongkeys   a chunk made without / with other keys in place of the peer's
 DesyncDamage == {"hdr.size"}
 CloseDamage  == {"hdr.type.clo"}
+\* An OPN frame of the adversary's own (naming the policy None, or a real policy with a stranger's RSA
+\* certificate, a non-RSA certificate, bytes that are no certificate): it is refused; whether the
+\* channel is still usable for the peer's later chunks is not a question of C09 (an adversary on the
+\* path can always cut the channel) -- outcome "shake": from here on only "a damaged or forged chunk
+\* is never accepted, nothing crashes" is demanded of the code, while the model itself goes on.
+OpnInjects   == {"opn.none", "opn.cert.stranger", "opn.eccert", "opn.junkcert"}
 \* damage class that hits the missing length check: verifyAndDecrypt slices the signature off a
 \* chunk shorter than a signature (only where nothing is decrypted first, i.e. in Sign mode)
 ShortDamage  == {"trunc.ltsig"}
@@ -176,6 +188,7 @@ IsShort(c, d) == d \in ShortDamage \/ (d = "sweep.trunc" /\ SweepLen(c) >= 16 /\
 Outcome(r, c, d, F) ==
   IF d \in DesyncDamage THEN "desync"
   ELSE IF d \in CloseDamage THEN "close"               \* a CLO chunk ends the channel, nothing is delivered
+  ELSE IF d \in OpnInjects /\ c.id = 0 THEN "shake"
   ELSE IF IsShort(c, d) /\ F.short /\ mode = "Sign" THEN "panic"
   ELSE IF d # "none" THEN "reject"                     \* framing / type / channel / verification
   ELSE IF ~F.noseq /\ ~SeqFollows(r.lastSeq, c.seq) THEN "reject"
@@ -239,7 +252,7 @@ Advance(m) ==
   /\ wire' = Append(wire, Chunk(m))
   /\ nextSeq' = IF nextSeq = sp.wrapAfter THEN sp.wrapTo
                 ELSE IF nextSeq = -1 THEN 0 ELSE nextSeq + 1
-  /\ UNCHANGED <<plan, sp, mode, sw>>
+  /\ UNCHANGED <<plan, sp, mode, sw, split, pre>>
 
 Alive == ~rc.crashed /\ ~rc.desync
 
@@ -290,7 +303,7 @@ RenewTok == /\ Alive /\ "renew" \in Moves /\ ~renewed
             /\ hist' = Append(hist, [in |-> "renew", id |-> Len(wire), dmg |-> "none", kind |-> "-", req |-> 0, seq |-> nextSeq,
                                      expect |-> "none", asis |-> "none", parts |-> <<>>, whole |-> FALSE,
                                      asis_parts |-> <<>>, asis_whole |-> FALSE])
-            /\ Age /\ UNCHANGED <<plan, sp, mode, sw, sentN, wire, held, budget>>
+            /\ Age /\ UNCHANGED <<plan, sp, mode, sw, split, pre, sentN, wire, held, budget>>
 
 \* a verbatim copy of a chunk the receiver has already been shown
 Replay(j) == /\ Alive /\ "replay" \in Moves /\ budget > 0
@@ -370,7 +383,7 @@ InvSenderConforms ==
 
 ---------------------------------------------------------------------------
 \* behaviour emission (generation configs only)
-Beh == [plan |-> plan, sp |-> sp, mode |-> mode, sweep |-> sw, chunks |-> wire, steps |-> hist,
+Beh == [plan |-> plan, sp |-> sp, mode |-> mode, sweep |-> sw, split |-> split, pre |-> pre, chunks |-> wire, steps |-> hist,
         maxchunks |-> MaxChunks, buffered |-> TotalBuffered(rc), asis_buffered |-> TotalBuffered(ra)]
 InvEmit == Terminal => PrintT("BEH " \o ToJson(Beh))
 =============================================================================
